@@ -697,10 +697,24 @@ class _SubtypeDistanceVisitor(TypeVisitor[int | None]):
         self.subtype = subtype
         self.any_distance = any_distance
 
+    def _min_distance_to_items(self, supertype: ProperType, subtype: UnionType) -> int | None:
+        distances = [self.graph.subtype_distance(supertype, elem) for elem in subtype.items]
+        valid_distances = [dist for dist in distances if dist is not None]
+        if valid_distances:
+            return min(valid_distances)
+        return None
+
     def visit_any_type(self, supertype: AnyType) -> int:
         return self.any_distance
 
-    def visit_none_type(self, supertype: NoneType) -> None:
+    def visit_none_type(self, supertype: NoneType) -> int | None:
+        if isinstance(self.subtype, NoneType):
+            # None cannot be subtyped, so it only matches itself.
+            return 0
+
+        if isinstance(self.subtype, UnionType):
+            return self._min_distance_to_items(supertype, self.subtype)
+
         return None
 
     def visit_instance(self, supertype: Instance) -> int | None:
@@ -729,13 +743,7 @@ class _SubtypeDistanceVisitor(TypeVisitor[int | None]):
             return self.graph.get_shortest_path_length(supertype.type, self.subtype.type)
 
         if isinstance(self.subtype, UnionType):
-            distances = [
-                self.graph.subtype_distance(supertype, elem) for elem in self.subtype.items
-            ]
-            valid_distances = [dist for dist in distances if dist is not None]
-            if valid_distances:
-                return min(valid_distances)
-            return None
+            return self._min_distance_to_items(supertype, self.subtype)
 
         if isinstance(self.subtype, AnyType):
             return self.any_distance
@@ -747,6 +755,7 @@ class _SubtypeDistanceVisitor(TypeVisitor[int | None]):
 
         The length of the arguments must match. If so, the result is the sum of
         the distances of the arguments.
+        For the UnionType, the minimum distance to any of its items is returned.
 
         Args:
             supertype: The supertype to calculate the distance to.
@@ -759,6 +768,9 @@ class _SubtypeDistanceVisitor(TypeVisitor[int | None]):
             if any(dist is None for dist in distances):
                 return None
             return sum(distances)  # type: ignore[arg-type]
+
+        if isinstance(self.subtype, UnionType):
+            return self._min_distance_to_items(supertype, self.subtype)
 
         return None
 
